@@ -17,6 +17,15 @@ def run():
     cfg = C.write_cfg("ConnLifecycle_c10.cfg", faults=1 if quick else 2, fixed=True, close=True, callers=("P1",) if quick else ("P1", "P2"))
     ctx.l1("ConnLifecycle", cfg, timeout=1500)
     os.remove(os.path.join(SPEC, cfg))
+    # the application's Disconnected handler closes the connection itself: fine as coded; a Close that joins the main goroutine deadlocks
+    cfg = C.write_cfg("ConnLifecycle_c10_hcl.cfg", faults=1, fixed=True, close=True, callers=("P1",), handler_closes=True)
+    ctx.l1("ConnLifecycle", cfg, timeout=1500)
+    os.remove(os.path.join(SPEC, cfg))
+    cfg = C.write_cfg("ConnLifecycle_c10_join.cfg", faults=1, fixed=True, close=True, callers=("P1",), handler_closes=True, close_joins_main=True)
+    r = ctx.l1("ConnLifecycle", cfg, timeout=1500, must_hold=False)
+    os.remove(os.path.join(SPEC, cfg))
+    if r.violated != "NoSelfJoin":
+        raise Inconclusive("ConnLifecycle with CloseJoinsMain should violate NoSelfJoin, TLC says %s" % (r.violated or r.error or "nothing"))
     if not quick:
         cfg = C.write_cfg("ConnLifecycle_c10_coded.cfg", faults=1, fixed=False, close=True)
         r = ctx.l1("ConnLifecycle", cfg, timeout=1500, must_hold=False)
